@@ -4,6 +4,8 @@ Every candidate is a full deterministic re-execution; a candidate is accepted on
 signature fires again.
 """
 import copy
+import hashlib
+import json
 import time
 
 from .engine import replay
@@ -50,10 +52,22 @@ def minimise(prop, res, budget_s=60.0):
             n = min(len(trace), n * 2)
 
     # 2./3. universe pruning and per-op simplification, repeated until nothing changes
+    seen = set()
+
+    def fresh(u, t):
+        k = hashlib.sha1(json.dumps([u, t], sort_keys=True).encode()).hexdigest()
+        if k in seen:
+            return False
+        seen.add(k)
+        return True
+
+    fresh(universe, trace)
     changed = True
     while changed and time.monotonic() < t_end:
         changed = False
         for u in prop.prune_universe(universe, trace):
+            if not fresh(u, trace):
+                continue
             r = _fails(prop, u, cfg, trace, sig)
             if r is not None:
                 universe, trace, best = u, r.trace, r
@@ -67,6 +81,8 @@ def minimise(prop, res, budget_s=60.0):
                     continue
                 cand = copy.deepcopy(trace)
                 cand[i] = {"c": e["c"], "op": simpler}
+                if not fresh(universe, cand):
+                    continue
                 r = _fails(prop, universe, cfg, cand, sig)
                 if r is not None and len(r.trace) <= len(trace):
                     trace, best = r.trace, r
